@@ -238,6 +238,14 @@ def main(argv=None):
         if kf is not None:
             known_hits.append((kf, name))
             continue
+        if "#reach:" in name:
+            # vacuity guard: never a violation by itself; a contradiction in contracts/models on an
+            # unchanged function is a fault of the machinery
+            if was_proved and lock.get(q, {}).get("source_hash") == next((f["source_hash"] for f in functions if f["qualname"] == q), None):
+                checker_errors.append(f"{name}: {rec.get('reason')}")
+            else:
+                undecided.append({"function": q, "obligation": name, "reason": rec.get("reason", "vacuous"), "changed": True})
+            continue
         if rec["status"] == "refuted" or was_proved:
             violations.append(make_violation(pid, spec, name, ob, rec, was_proved))
         else:
@@ -257,6 +265,19 @@ def main(argv=None):
         bounded.append(b)
         if res and res.get("failing"):
             violations.append(make_bounded_violation(pid, q, res))
+
+    # functions outside the verifier's reach that a property still depends on: bounded check on
+    # every run, labelled bounded, never counted as proved
+    for q, drv in sorted(spec.get("bounded_always", {}).items()):
+        req = {"mode": "bounded", "function": q, "seed": seed, "tier": args.tier}
+        req.update(drv.get("request", {}))
+        res = run_replay(drv["driver"], req)
+        b = {"function": q, "driver": drv["driver"], "bound": drv.get("bound", ""), "result": res, "not_under_contract": True}
+        bounded.append(b)
+        if res and res.get("failing"):
+            violations.append(make_bounded_violation(pid, q, res))
+        elif not res or res.get("error"):
+            checker_errors.append(f"bounded check of {q} failed to run: {str(res)[:300]}")
 
     for u in undecided:
         print(f"UNDECIDED-PROOF property={pid} function={u['function']} obligation={u.get('obligation', '-')} reason={str(u['reason'])[:200]}")
